@@ -1,7 +1,18 @@
-(* C01 - Rendered output.  Statements only (initial set; the display theorems are added from
-   Proofs/RenderProofs.v).  to_str models AnsiString.to_str without a format spec (as repaired, F1). *)
+(* C01 - Rendered output displays the text with exactly the reported per-character styles.
+   Statements only.  to_str models AnsiString.to_str without a format spec (as repaired, known_findings
+   F1); the terminal (term_run, style_of, teq, teq_disp) is the SPECIFICATION of Spec/Terminal.v and
+   knows nothing of the repository's tables.  Hypotheses, all forced by the statement itself:
+     ssorted          - change points strictly increasing (reachable-value invariant, C09);
+     no_esc (base s)  - the base text contains no ESC (known finding K1: in-band signalling);
+     adds_wf          - every setting text is a well-formed SGR parameter group (the property's own premise);
+     rs = false -> t0 = tdefault : without reset_start the terminal starts in its default state; WITH
+                        reset_start the prior state t0 is arbitrary - the result does not depend on it.
+   teq is exact equality of terminal states; teq_disp additionally identifies "primary font selected
+   (10)" with "default font", which is what the optimiser's clear code for FONT_TYPE relies on. *)
 From AS Require Import Base Effects.
+From AS.Spec Require Import Terminal.
 From AS.Model Require Import Sgr Table Render.
+From AS.Proofs Require Import TableProofs SgrAlgebra RenderProofs.
 
 (* str() / format(s, '') are to_str with the default flags *)
 Theorem C01_str : forall s, render s = to_str s true false true.
@@ -15,3 +26,59 @@ Proof.
   destruct (base s) as [|c r]; cbn [is_nil bytes_of flat_map bytes_of_tok]; [reflexivity | now rewrite app_nil_r].
 Qed.
 Print Assumptions C01_plain.
+
+(* optimize=False, all four reset_start / reset_end combinations, on the emitted BYTES: the terminal
+   shows exactly the characters of base_str in order, character i with the style obtained from the
+   settings reported for i (a later setting overriding earlier ones of the same effect), and with
+   reset_end it is back in its default state afterwards *)
+Theorem C01_display_unoptimized : forall s rs re t0,
+  ssorted (tbl s) -> no_esc (base s) = true -> adds_wf (tbl s) -> (rs = false -> t0 = tdefault) ->
+  exists disp tfin,
+    term_run t0 (to_str s false rs re) = (disp, tfin)
+    /\ map fst disp = base s
+    /\ (forall i, i < length (base s) -> exists st, nth_error (map snd disp) i = Some st /\
+          teq st (style_of (map stxt (active_at (tbl s) i))))
+    /\ (re = true -> teq tfin tdefault).
+Proof. exact render_unopt_display_bytes. Qed.
+Print Assumptions C01_display_unoptimized.
+
+(* optimize=True likewise (the optimiser is used when every setting is parsable, otherwise the code
+   falls back to the unoptimised path - both cases are covered) *)
+Theorem C01_display_optimized : forall s rs re t0,
+  ssorted (tbl s) -> no_esc (base s) = true -> adds_wf (tbl s) -> (rs = false -> t0 = tdefault) ->
+  exists disp tfin,
+    term_run t0 (to_str s true rs re) = (disp, tfin)
+    /\ map fst disp = base s
+    /\ (forall i, i < length (base s) -> exists st, nth_error (map snd disp) i = Some st /\
+          teq_disp st (style_of (map stxt (active_at (tbl s) i))))
+    /\ (re = true -> teq_disp tfin tdefault).
+Proof. exact render_opt_display_bytes. Qed.
+Print Assumptions C01_display_optimized.
+
+(* optimize=True and optimize=False are display-equivalent *)
+Theorem C01_optimize_equiv : forall s rs re t0,
+  ssorted (tbl s) -> adds_wf (tbl s) -> (rs = false -> t0 = tdefault) ->
+  exists d1 f1 d2 f2,
+    tok_run t0 (to_str_toks s true rs re) = (d1, f1)
+    /\ tok_run t0 (to_str_toks s false rs re) = (d2, f2)
+    /\ map fst d1 = map fst d2
+    /\ Forall2 teq_disp (map snd d1) (map snd d2)
+    /\ (re = true -> teq_disp f1 f2).
+Proof. exact render_opt_equiv. Qed.
+Print Assumptions C01_optimize_equiv.
+
+(* tokens and bytes: the byte-level terminal on the emitted string is the token-level run *)
+Theorem C01_bytes_are_tokens : forall toks t, Forall tok_ok toks -> term_run t (bytes_of toks) = tok_run t toks.
+Proof. exact term_tok_bridge. Qed.
+Print Assumptions C01_bytes_are_tokens.
+
+(* with reset_start the output begins with an SGR sequence whose first parameter is 0 (a reset) *)
+Theorem C01_reset_start : forall s opt re, adds_wf (tbl s) ->
+  exists codes r p, to_str_toks s opt true re = OSgr codes :: r /\ params_of codes = Some (0%N :: p).
+Proof. exact render_starts_reset. Qed.
+Print Assumptions C01_reset_start.
+
+(* non-vacuity: the examples of Proofs/RenderProofs.v satisfy every hypothesis and their computed
+   renderings display as stated (ex_s_*: unoptimised; ex_o_*: the optimiser really shortens) *)
+Example C01_example_hyps := ex_s_hyps.
+Example C01_example_opt := ex_o_rendered.
